@@ -29,8 +29,8 @@ Mirrored as written (param/parameterized.py):
     parameter and every sub-path value of the old and the new object compare equal (`None` object →
     `Undefined`, which equals nothing).
 
-Batching is modelled for one form: `o.param.update(…)` / `batch_call_watchers(o)` around assignments to
-`o` itself, no batch open before.  Not modelled: nested batches, slots (`what != 'value'`),
+Batching is modelled for one form: `o.param.update(…)` / `batch_call_watchers(o)` / `discard_events(o)` around
+assignments to `o` itself (keys may repeat in a block), no batch open before.  Not modelled: nested batches, slots (`what != 'value'`),
 `'….param'` below depth 1 and path elements that are not object-valued (rejected: `illFormed`).
 An exception of the LIBRARY (rejected value, unresolvable dependency) ends the history; an exception
 raised by a dependent method's body leaves the dispatch loop (`raised`) and the history goes on.
